@@ -88,8 +88,16 @@ func (w *ConfigurationWatcher) Start(ch chan<- controller.ID) error {
 			ch <- controller.NewID(proposalstore.NewID(event.Configuration.TargetID, event.Configuration.Index))
 			ch <- controller.NewID(proposalstore.NewID(event.Configuration.TargetID, event.Configuration.Status.Applied.Index))
 			// Before anything was applied (or after a rollback moved the index back) neither of the two names the
-			// proposals that wait for the target: the last proposed one does, and it pokes its predecessors
-			ch <- controller.NewID(proposalstore.NewID(event.Configuration.TargetID, event.Configuration.Status.Proposed.Index))
+			// proposals that wait for the target. Any proposal that was proposed and is not both committed and
+			// applied yet may be the one the event enables: wake them all (indexes the target has no proposal for
+			// are not found and cost nothing)
+			first := event.Configuration.Status.Applied.Index
+			if event.Configuration.Status.Committed.Index < first {
+				first = event.Configuration.Status.Committed.Index
+			}
+			for index := first + 1; index <= event.Configuration.Status.Proposed.Index; index++ {
+				ch <- controller.NewID(proposalstore.NewID(event.Configuration.TargetID, index))
+			}
 		}
 	}()
 	return nil
